@@ -17,7 +17,7 @@ THEOREMS = [
     "C15_unpack_compositional_optional",
     "C15_frame_partial", "C15_frame_creation_extends", "C15_frame_history",
     "C15_lookalike_refuted", "C15_subclass_refuted", "C15_frame_subclass_refuted",
-    "C15_fieldless_member_refuted", "C15_dialect_priority_refuted", "C15_union_order_observable",
+    "C15_fieldless_member_refuted", "C15_dialect_priority_refuted", "C15_union_order_observable", "C15_union_container_refuted",
 ]
 
 CASE_TYPE = "env * (bool * mode * option bool) * ty * val * res val"
@@ -281,14 +281,16 @@ def first_diff(sc, t, v, a, b):
     if a[0] != b[0] or a[0] == "err":
         return (t, v)
     if k == "union":
-        # descend through a container / dataclass member whose shape fits value and both outputs
-        dms = [q[1] for q in t[1] if q[0] == "data"]
-        for mt in t[1]:
-            # (an instance of a later dataclass member stays at the union: static-dispatch signature)
-            if mt[0] in ("list", "dict", "tuple") or (mt[0] == "data" and v[0] == "obj" and v[1] == mt[1] and dms[0] == mt[1]):
-                d = first_diff(sc, mt, v, a, b)
-                if d is not None and d != (mt, v):
-                    return d
+        # descend only through the FIRST member the value conforms to, and only if no earlier member could have
+        # produced the difference by dispatching on the value (then the difference belongs to the union itself)
+        for n, mt in enumerate(t[1]):
+            if conforms(sc, mt, v):
+                earlier = [q for q in t[1][:n] if q[0] in ("list", "dict", "tuple", "data")]
+                if not earlier and mt[0] in ("list", "dict", "tuple", "data"):
+                    d = first_diff(sc, mt, v, a, b)
+                    if d is not None and d != (mt, v):
+                        return d
+                break
         return (t, v)
     if k == "list" and v[0] in ("list", "tuple") and a[0] == "list" and b[0] == "list" and len(a[1]) == len(b[1]) == len(v[1]):
         for x, ax, bx in zip(v[1], a[1], b[1]):
@@ -319,6 +321,32 @@ def first_diff(sc, t, v, a, b):
     return (t, v)
 
 
+def conforms(sc, t, v) -> bool:
+    """isinstance-conformance of a value AST to a type AST (strict-subclass instances conform)"""
+    k = t[0]
+    if k in ("int", "str", "date"):
+        return v[0] == k
+    if k == "list":
+        return v[0] == "list" and all(conforms(sc, t[1], x) for x in v[1])
+    if k == "dict":
+        return v[0] == "dict" and all(conforms(sc, t[1], x) for _, x in v[1])
+    if k == "tuple":
+        return v[0] == "tuple" and len(v[1]) == len(t[1]) and all(conforms(sc, tt, x) for tt, x in zip(t[1], v[1]))
+    if k == "opt":
+        return v[0] == "none" or conforms(sc, t[1], v)
+    if k == "union":
+        return any(conforms(sc, m, v) for m in t[1])
+    if k == "data":
+        if v[0] != "obj":
+            return False
+        try:
+            rc = sc.cls(v[1])
+        except KeyError:
+            return False
+        return v[1] == t[1] or rc.is_strict_sub_of(t[1])
+    return False
+
+
 def wrap(r):
     return r[1] if r[0] == "ok" else ("err",) + tuple(r[1:])
 
@@ -344,6 +372,12 @@ def signature_of(sc, t, v, mixin_r, codec_r) -> dict:
             if len(dms) >= 2 and pv[1] in dms and dms.index(pv[1]) > 0:
                 sig["kind"] = "codec-union-static-dispatch"
                 return sig
+        if mixin_r[0] == "ok" and codec_r[0] == "ok" and pv[0] in ("list", "tuple", "dict") and \
+                any(m[0] in ("list", "dict", "tuple") and L.data_names(m) for m in pt[1]):
+            # a container member whose element packers dispatch dynamically (mixin) / statically (codec) meets a
+            # container value of another member
+            sig["kind"] = "union-container-member-dispatch"
+            return sig
         fieldless_before = [m for m in dms if not sc.cls(m).fields and not (pv[0] == "obj" and pv[1] == m)]
         if fieldless_before and codec_r[0] == "ok" and codec_r[1] == ("dict", []):
             sig["kind"] = "codec-union-fieldless-member"
@@ -411,8 +445,6 @@ def oracle_entry_points(ctx, sc, mod, src, cls_name, v, conforming_kind):
             if sig["kind"] == "dialect-priority":
                 ctx.hist("oracle_kind", "skipped:dialect-priority")
                 continue
-            mix, oth = (outs[ref], outs[k]) if "to_dict" in ref and outs[ref][0] == "err" else (outs[k], outs[ref])
-            sig = (trap_sig(sc, ("data", cls_name), mix, oth) if ("to_dict" in ref or "to_dict" in k) else None) or sig
             ctx.fail(f"entry points disagree on {cls_name}: {ref} = {show(outs[ref])} but {k} = {show(outs[k])}",
                      {"entry": "entry-points-pack", "source": src, "class": cls_name, "value": v, "dialect": sc.dialect,
                       "a": ref, "b": k, "observed_a": show(outs[ref]), "observed_b": show(outs[k]),
@@ -459,9 +491,7 @@ def oracle_entry_points(ctx, sc, mod, src, cls_name, v, conforming_kind):
                          {"entry": "entry-points-unpack", "source": src, "class": cls_name, "wire": d, "dialect": sc.dialect,
                           "a": names[0], "b": k, "observed_a": show(douts[names[0]]), "observed_b": show(douts[k]),
                           "expected": "identical results"},
-                         (trap_sig(sc, ("data", cls_name), *((douts[names[0]], douts[k]) if "from_dict" in names[0] and douts[names[0]][0] == "err"
-                                                              else (douts[k], douts[names[0]])))
-                          if ("from_dict" in names[0] or "from_dict" in k) else None) or {"kind": "unclassified-unpack"})
+                         {"kind": "unclassified-unpack"})
                 break
     # Optional[D] and None
     r = L.call(lambda: (BasicDecoder(Optional[D], **kw).decode(None), BasicEncoder(Optional[D], **kw).encode(None)))
@@ -540,6 +570,108 @@ def oracle_compositional(ctx, sc, mod, src, i, vals):
                      {"entry": "compositional-unpack", "source": src, "root": i, "wires": wires, "dialect": sc.dialect,
                       "check": name, "observed": show(got), "expected": show(expect)},
                      {"kind": "compositional"})
+
+
+def oracle_decompose(ctx, sc, mod, src, i, vals):
+    """a codec for a shape == the codecs of its COMPONENTS applied componentwise, one level down: tuple items, list/dict
+    elements, Optional, and the fields of a dataclass (use nested inside another dataclass) - encoding and decoding"""
+    from mashumaro.codecs.basic import BasicDecoder, BasicEncoder
+    import dataclasses as dc
+    t = sc.roots[i]
+    T = mod.ROOTS[i]
+    Dl = dl_of(sc, mod)
+    kw = {"default_dialect": Dl} if Dl else {}
+
+    def pytype(ast):
+        tp = eval(L.py_ty(ast), mod.__dict__)
+        return tp if py_to_ast(tp) == ast else None      # typing may hand out an older equal-but-reordered object
+
+    def comps(ast, obj, wire, decoding=False):
+        """[(label, component type AST, component object, component wire)]"""
+        k = ast[0]
+        out = []
+        if k == "tuple" and isinstance(obj, tuple) and isinstance(wire, list) and len(obj) == len(wire) == len(ast[1]):
+            out = [(f"[{j}]", ast[1][j], obj[j], wire[j]) for j in range(len(obj))]
+        elif k == "list" and isinstance(obj, list) and isinstance(wire, list) and len(obj) == len(wire):
+            out = [(f"[{j}]", ast[1], obj[j], wire[j]) for j in range(len(obj))]
+        elif k == "dict" and isinstance(obj, dict) and isinstance(wire, dict) and list(obj) == list(wire):
+            out = [(f"[{kk!r}]", ast[1], obj[kk], wire[kk]) for kk in obj]
+        elif k == "opt" and obj is not None and wire is not None:
+            out = [("", ast[1], obj, wire)]
+        elif k == "data" and dc.is_dataclass(obj) and L.cname(type(obj)) == ast[1] and isinstance(wire, dict):
+            for (fn, al, ft) in sc.cls(ast[1]).fields:
+                # to_dict writes name or alias; from_dict reads the alias when there is one
+                key = (al or fn) if decoding else (fn if fn in wire else al)
+                if key in wire:
+                    out.append(("." + fn, ft, getattr(obj, fn), wire[key]))
+        return out
+
+    for v in vals:
+        x = L.build(mod, v)
+        whole = L.call(lambda: BasicEncoder(T, **kw).encode(x))
+        if whole[0] != "ok":
+            continue
+        wire = BasicEncoder(T, **kw).encode(x)
+        rb = L.call(lambda: BasicDecoder(T, **kw).decode(wire))
+        if rb[0] != "ok":
+            # the whole decoder rejects its own encoder's output: then some component decoder must reject its component
+            # (positional shapes only: a dataclass may legitimately reject its own output, e.g. alias keys)
+            cs = [(label, ct, pytype(ct), cwire) for (label, ct, _, cwire) in comps(t, x, wire, decoding=True)]
+            if t[0] == "data":
+                # a dataclass may legitimately reject its own output (alias keys, forbid_extra_keys): the claim needs every
+                # field's decoding key to be present and no extra-key policy
+                c = sc.cls(t[1])
+                if len(cs) != len(c.fields) or "forbid_extra_keys" in c.extra or not c.fields:
+                    cs = []
+            if cs and all(CT is not None for (_, _, CT, _) in cs):
+                rs = [res_key(L.call(lambda CT=CT, cwire=cwire: BasicDecoder(CT, **kw).decode(cwire))) for (_, _, CT, cwire) in cs]
+                ctx.count(("decompose-dec-err", sc.sid, i, repr(v)), n=len(rs) + 1)
+                first_err = next((r for r in rs if r[0] != "ok"), None)
+                if first_err is not None and t[0] != "data" and res_key(rb) != first_err:
+                    # positional shapes evaluate their components in order: the whole decoder fails exactly like the
+                    # first failing component decoder (C15_unpack_compositional_*)
+                    ctx.fail(f"decoder for {L.py_ty(t)} raises {show(res_key(rb))} but its first failing component decoder raises {show(first_err)}",
+                             {"entry": "decompose", "source": src, "root": i, "value": v, "dialect": sc.dialect, "at": "*",
+                              "pack": False, "observed": show(res_key(rb)), "expected": show(first_err)},
+                             {"kind": "decompose"})
+                if all(r[0] == "ok" for r in rs):
+                    ctx.fail(f"decoder for {L.py_ty(t)} raises {show(res_key(rb))} on the output of its own encoder although every component "
+                             f"decoder accepts its component ({[c[0] for c in cs]})",
+                             {"entry": "decompose", "source": src, "root": i, "value": v, "dialect": sc.dialect, "at": "*",
+                              "pack": False, "observed": show(res_key(rb)), "expected": "componentwise success"},
+                             {"kind": "decompose"})
+            continue
+        try:
+            back = BasicDecoder(T, **kw).decode(wire)
+        except Exception:
+            continue
+        for (label, ct, cobj, cwire) in comps(t, x, wire):
+            CT = pytype(ct)
+            if CT is None:
+                continue
+            ctx.count(("decompose", sc.sid, i, label, repr(v)), n=2)
+            e1 = res_key(L.call(lambda: BasicEncoder(CT, **kw).encode(cobj)))
+            if e1 != ("ok", L.canon(cwire)):
+                ctx.fail(f"encoder for {L.py_ty(t)} is not componentwise at {label}: whole gives {show(L.canon(cwire))}, "
+                         f"BasicEncoder({L.py_ty(ct)}) gives {show(e1)}",
+                         {"entry": "decompose", "source": src, "root": i, "value": v, "dialect": sc.dialect, "at": label,
+                          "pack": True, "observed": show(L.canon(cwire)), "expected": show(e1)},
+                         {"kind": "decompose"})
+                continue
+        # decoding: the whole decoder's components vs the component decoders on the component wires
+        bcomps = comps(t, back, wire, decoding=True)
+        for (label, ct, cback, cwire) in bcomps:
+            CT = pytype(ct)
+            if CT is None:
+                continue
+            d1 = res_key(L.call(lambda: BasicDecoder(CT, **kw).decode(cwire)))
+            ctx.count(("decompose-dec", sc.sid, i, label, repr(v)), n=2)
+            if d1 != ("ok", L.canon(cback)):
+                ctx.fail(f"decoder for {L.py_ty(t)} is not componentwise at {label}: the whole decoder gives {show(L.canon(cback))} there, "
+                         f"BasicDecoder({L.py_ty(ct)}).decode(component) gives {show(d1)}",
+                         {"entry": "decompose", "source": src, "root": i, "value": v, "dialect": sc.dialect, "at": label,
+                          "pack": False, "observed": show(L.canon(cback)), "expected": show(d1)},
+                         {"kind": "decompose"})
 
 
 # ---- frame: creating codecs / subclasses in between changes nothing ---------------------
@@ -751,9 +883,6 @@ def oracle_frame(ctx, sc, src, vals_by_root, steps):
                     # is a class creation that annotated that plain subclass
                     if kind == "subclass-with-field" and "to_dict" in p[0] and has_plain_strict_sub(sc, sc.roots[p[2]], v):
                         sig = {"kind": "subclass-creation-installs-method"}
-                    if "to_dict" in p[0] or "from_dict" in p[0]:
-                        # a mixin probe that failed BEFORE (first call with dialect=) and works after something compiled
-                        sig = trap_sig(sc, sc.roots[p[2]], b, a) or sig
                     ctx.fail(f"creating {kind} changed {p[0]}: before {show(b)} after {show(a)}",
                              {"entry": "frame", "source": src, "root": p[2], "value": v, "probe": p[0], "dialect": sc.dialect,
                               "creations": list(log), "observed": show(a), "expected": show(b)},
@@ -786,9 +915,6 @@ def fresh_subclass_agrees(ctx, sc, mod, cn, n, Dl, kw, vals_by_root):
             c = res_key(L.call(lambda: o.to_dict(dialect=Dl) if Dl else o.to_dict())) if sc.cls(cn).mixin else None
             d = res_key(L.call(lambda: BasicEncoder(base, **kw).encode(o)))
             ctx.count(("fresh-sub", sc.sid, cn, n), n=4)
-            if (a != b and trap_sig(sc, ("data", cn), a, b)) or (c is not None and c != d and trap_sig(sc, ("data", cn), c, d)):
-                ctx.hist("oracle_kind", "skipped:lazy-dialect-first-call(fresh subclass)")
-                return None
             if a != b:
                 # the known static-dispatch findings can sit in the inherited fields (classified at the base class)
                 sig = signature_of(sc, ("data", cn), v, a, b) if a[0] == "ok" and b[0] == "ok" else {"kind": "frame-fresh-subclass"}
@@ -799,38 +925,6 @@ def fresh_subclass_agrees(ctx, sc, mod, cn, n, Dl, kw, vals_by_root):
                 return (f"after calling the subclass: {cn}.to_dict = {show(c)} but BasicEncoder({cn}).encode = {show(d)}",
                         {"kind": "frame-fresh-subclass"})
             return None
-    return None
-
-
-def effective_lazy(c) -> bool:
-    if c.own_config:
-        return c.extra.get("lazy_compilation") == "True"
-    return effective_lazy(c.parent) if c.parent else False
-
-
-def lazy_dialect_trap(sc, t, seen=None) -> bool:
-    """t reaches a lazily compiled class with a field annotated by a PLAIN dataclass"""
-    seen = set() if seen is None else seen
-    for n in L.data_names(t):
-        if n in seen:
-            continue
-        seen.add(n)
-        c = sc.cls(n)
-        for (_, _, ft) in c.fields:
-            if effective_lazy(c) and any(not sc.cls(k).mixin for k in L.data_names(ft)):
-                return True
-            if lazy_dialect_trap(sc, ft, seen):
-                return True
-    return False
-
-
-def trap_sig(sc, t, mixin_outcome, other_outcome):
-    """known finding C15/lazy-dialect-first-call: calls carry `dialect=`, the type reaches a lazy class with a plain
-    dataclass field, and the MIXIN entry point fails (AttributeError: no __mashumaro_to_dict__/__mashumaro_from_dict__
-    on the nested class, possibly wrapped) where the other entry point does not fail the same way"""
-    if sc.dialect is not None and sc.lazy and mixin_outcome[0] == "err" and mixin_outcome != other_outcome \
-            and lazy_dialect_trap(sc, t):
-        return {"kind": "lazy-dialect-first-call"}
     return None
 
 
@@ -874,7 +968,11 @@ def run(ctx: vlib.Ctx):
         "allow_deserialization_not_by_alias, kw_only + defaults, ADD_SERIALIZATION_CONTEXT, strategy dialects) for the oracles; "
         "format family: msgpack/orjson/json/yaml/toml mixins vs Encoder/Decoder/one-shot functions over int/str/bool/date/datetime/"
         "time/UUID/bytes/bytearray with user dialects (call-time or Config.dialect) whose strategies and options overlap the "
-        "format's built-in dialect")
+        "format's built-in dialect; mapping keys other than str, tuples and FOREIGN documents (perturbed, re-dumped with other library "
+        "options) for every decoding entry point. Round 2: classes spread over library modules with EQUAL __qualname__ meeting in one "
+        "holder/shape; modules with `from __future__ import annotations`; compile-mode variants of every scenario (all classes lazy + a "
+        "call dialect, only top classes as roots); componentwise decomposition of every root (tuple items, elements, Optional, "
+        "dataclass fields) for encoders, decoders and their errors")
     ctx.trusted += [
         "C15: harness/c15lib.py materialiser (Python source of the class table and the Coq env denote the same schema; "
         "predicted_has_method = which plain classes own __mashumaro_to_dict__), canonicaliser and exception reduction "
@@ -921,6 +1019,31 @@ def run(ctx: vlib.Ctx):
                 v = L.gen_value(ctx.rng, sc, t, sub_p, junk_p, info)
                 vals.append((i, v, info))
         scen.append((sc, vals))
+    # compile-mode variants: the SAME class table and values once more with every class compiled lazily and every call
+    # carrying a dialect that sets nothing - both are invisible in the model, so model and oracles expect the same results
+    import copy
+    base = [x for x in scen if not x[0].lazy or x[0].dialect is None]
+    for (sc0, vals0) in base[5:]:
+        sc = copy.deepcopy(sc0)
+        sc.sid = str(sc0.sid) + "~lazy+dialect"
+        for c in sc.classes:
+            c.by_alias_own = c.by_alias          # keep the effective Config when every class gets its own Config
+        for c in sc.classes:
+            c.own_config = True
+            c.extra["lazy_compilation"] = "True"
+        sc.lazy = True
+        if sc.dialect is None:
+            sc.dialect = "unset"
+        # only "top" classes stay roots: a class referenced by another class's field is then reached (and compiled)
+        # through its holders only, never through a wrapper of its own
+        referenced = {n for c in sc.classes for (_, _, ft) in c.fields for n in L.data_names(ft)}
+        keep = [i for i, t in enumerate(sc.roots) if not (set(L.data_names(t)) & referenced)]
+        remap = {i: k for k, i in enumerate(keep)}
+        sc.roots = [sc.roots[i] for i in keep]
+        vals = [(remap[i], v, info) for (i, v, info) in vals0
+                if i in remap and not info.get("subclass") and not info.get("junk")]
+        if sc.roots and vals:
+            scen.append((sc, vals))
     # wide scenarios: Config options outside the Coq model (omit_none, omit_default, sort_keys, forbid_extra_keys,
     # allow_deserialization_not_by_alias, lazy_compilation, code generation flags, defaults, kw_only, strategy
     # dialects): no correspondence, but every oracle
@@ -941,6 +1064,8 @@ def run(ctx: vlib.Ctx):
             L.unload_module(mod)
             continue
         loaded.append((sc, vals, src, mod))
+        ctx.hist("scenario_annotations", "pep563-strings" if sc.pep563 else "objects")
+        ctx.hist("scenario_modules", "multi:same-qualname" if any(c.pyname != c.name for c in sc.classes) else ("multi" if sc.multi else "single"))
         ctx.hist("scenario", ("wide:" if sc.wide else "") + ("lazy:" if sc.lazy else "") + ("dialect" if sc.dialect is not None else "no-dialect"))
         if sc.wide:
             for c in sc.classes:
@@ -1032,6 +1157,7 @@ def run(ctx: vlib.Ctx):
             exact_vals = [v for (v, info) in lst if not info.get("subclass")]
             if exact_vals:
                 oracle_compositional(ctx, sc, mod, src, i, exact_vals[:3])
+                oracle_decompose(ctx, sc, mod, src, i, exact_vals[:2])
 
     # ---------------- oracle 3: frame (fresh modules)
     fsel = loaded if not ctx.quick() else [x for k, x in enumerate(loaded) if k < 5 or k % 2 == 1 or any(c.extra for c in x[0].classes)]
@@ -1144,6 +1270,13 @@ def replay(rep: dict) -> int:
             for f in ctx.failures:
                 print(f.what)
             rc = 1 if ctx.failures else 0
+        elif entry == "decompose":
+            ctx = vlib.Ctx("C15", "quick", rep.get("seed", 0))
+            sc = scenario_from_module(mod, rep)
+            oracle_decompose(ctx, sc, mod, src, rep["root"], [tup(rep["value"])])
+            for f in ctx.failures:
+                print(f.what)
+            rc = 1 if ctx.failures else 0
         elif entry == "oneshot-history":
             import typing
             perms = [[tup(m) if isinstance(m, list) else m for m in pm] for pm in rep["perms"]]
@@ -1230,7 +1363,7 @@ def py_to_ast(tp):
     if tp is datetime.date:
         return ("date",)
     if dc.is_dataclass(tp):
-        return ("data", tp.__name__)
+        return ("data", L.cname(tp))
     o = typing.get_origin(tp)
     a = typing.get_args(tp)
     if o is list:
@@ -1256,7 +1389,7 @@ def module_matches_scenario(sc, mod) -> bool:
             if py_to_ast(mod.ROOTS[i]) != t:
                 return False
         for c in sc.classes:
-            hints = typing.get_type_hints(getattr(mod, c.name), mod.__dict__)
+            hints = typing.get_type_hints(getattr(mod, c.name))     # resolved in the class's OWN module
             for (fn, _, ft) in c.fields:
                 if py_to_ast(hints[fn]) != ft:
                     return False
@@ -1282,7 +1415,7 @@ def scenario_from_module(mod, rep):
         if tp is datetime.date:
             return ("date",)
         if dc.is_dataclass(tp):
-            return ("data", tp.__name__)
+            return ("data", L.cname(tp))
         o = typing.get_origin(tp)
         a = typing.get_args(tp)
         if o is list:
@@ -1300,8 +1433,8 @@ def scenario_from_module(mod, rep):
     for n in names:
         k = getattr(mod, n)
         par = [b for b in k.__bases__ if dc.is_dataclass(b)]
-        parent = sc.cls(par[0].__name__) if par else None
-        hints = typing.get_type_hints(k, mod.__dict__)
+        parent = sc.cls(L.cname(par[0])) if par else None
+        hints = typing.get_type_hints(k)
         inherited = {f[0] for f in parent.fields} if parent else set()
         own = [(f.name, f.metadata.get("alias"), ty_of(hints[f.name])) for f in dc.fields(k) if f.name not in inherited]
         cfg = k.__dict__.get("Config")
